@@ -3,6 +3,7 @@ import JSL.Inv.PlanOf
 import JSL.Inv.EnvReach
 import JSL.Props.Example
 import JSL.Props.C19
+import JSL.Inv.Fresh
 
 /-!
 # C06 — the lower bound never exceeds the makespan of any feasible schedule
@@ -143,5 +144,145 @@ example : FeasiblePlan [[(0, 3, 0), (1, 2, 3)], [(1, 2, 0), (0, 4, 3)]] 7 ∧
   · intro j hj; simp at hj; rcases hj with rfl | rfl <;> simp [ChainOK, POp.start, POp.stop]
   · simp [disjointOps, POp.mach, POp.stop, POp.start]
   · intro j hj x hx; simp at hj; rcases hj with rfl | rfl <;> simp at hx <;> rcases hx with rfl | rfl <;> simp [POp.stop]
+
+/-!
+
+## Reachability side: the local ingredients of "every schedule can be steered to through
+accept / decline decisions"
+
+At a decision point the environment holds a shop state and a list of offers.
+
+* **T1** `c06_offers_are_the_startable_operations` – right after a state-machine step the machine
+  starts on offer are exactly the startable operations of the state held: job not running, its first
+  idle operation routed to an idle machine in whose pre-buffer the job stands.  In general the held
+  list is that list minus the prefix already declined (`envReach_held_offers`).
+* **T2** `c06_any_offer_can_be_chosen` – whatever is still on offer can be brought to the head by
+  declining what stands in front of it: no transition is applied, shop state, update counters and
+  allowance are untouched, the episode goes on.
+* **T3** `c06_only_an_accepted_start_starts` – for FLEX pre-buffers: a step that is not the acceptance
+  of a machine start takes no operation record out of `IDLE`.  For ordered pre-buffers this is false
+  (`c06_ordered_prebuffers_start_by_themselves`): machines then take their jobs themselves.
+* **T4** `c06_accepted_start_starts_now` – accepting a machine start applies it first, to the state
+  held, and the operation begins at the decision instant.
+* `c06_startable_can_be_started_now` – the composition: at a fresh decision point every startable
+  operation can be started at the current instant by a run of declines followed by one accept
+  (provided that accept returns – its timed loop is where the recorded C05 findings lie).
+-/
+
+variable {orc : Oracle} {inst : Instance}
+
+/-- **T1.**  At a fresh decision point of any episode: the machine start `(mid, jid)` is on offer iff
+job `jid` is not running, its first idle operation is routed to machine `mid`, that machine is idle,
+and the job stands in its pre-buffer. -/
+theorem c06_offers_are_the_startable_operations {ec : EnvCfg} {st : RewardStatic} {s0 : State}
+    (hst : Start orc inst s0) {e : EnvState} (hr : EnvReach orc inst ec st s0 e) (hne : e.res.possible ≠ [])
+    (hf : FreshOffers inst ec e) (mid jid : Nat) :
+    ({ comp := .m mid, new := .m .setup, job := some jid } : Transition) ∈ e.res.possible ↔
+      ∃ j ∈ e.res.state.jobs, j.id = jid ∧ ∃ o m, StartableOp e.res.state j o m ∧ o.machine = mid := by
+  obtain ⟨_, _, hS⟩ := occursA_inv hst ((envReach_inv hst hr).live hne).1
+  exact machine_offer_iff_op hS hf mid jid
+
+/-- **T2.**  Whatever is on offer can be chosen: `tr ∈ e.res.possible` is brought to the head by
+declining the offers in front of it. -/
+theorem c06_any_offer_can_be_chosen {ec : EnvCfg} {st : RewardStatic} {s0 : State} (hst : Start orc inst s0)
+    (hj : 0 ≤ ec.mw.jokerInit) (hn : st.numOps ≠ 0) {e : EnvState} (hr : EnvReach orc inst ec st s0 e)
+    (hd : e.done = false) {tr : Transition} (htr : tr ∈ e.res.possible) :
+    ∃ k e' post, k < e.res.possible.length ∧ envDeclineN orc inst ec st k e = .ok (e', []) ∧
+      EnvReach orc inst ec st s0 e' ∧ e'.done = false ∧ e'.res.state = e.res.state ∧
+      e'.res.possible = tr :: post ∧ e'.rng = e.rng ∧ e'.mw.joker = e.mw.joker ∧ e'.mw.actCnt = e.mw.actCnt := by
+  obtain ⟨pre, post, hp⟩ := List.append_of_mem htr
+  obtain ⟨e', h1, h2, h3, h4, h5, h6, h7, h8⟩ := envReach_decline_to_offer hst hj hn hr hd pre tr post hp
+  exact ⟨pre.length, e', post, by rw [hp]; simp, h1, h2, h3, h4, h5, h6, h7, h8⟩
+
+/-- **T3.**  With FLEX pre-buffers, a step of the environment that is not the acceptance of a machine
+start starts no operation: every record that is not idle afterwards (in the state held, and right
+after every transition applied inside the step) was not idle before. -/
+theorem c06_only_an_accepted_start_starts {ec : EnvCfg} {st : RewardStatic} {s0 : State} (hst : Start orc inst s0)
+    (hflex : PreFlex inst) {e : EnvState} (hr : EnvReach orc inst ec st s0 e) {a : AgentAct} {out : StepOut}
+    (hk : a = .decline ∨ ∀ tr ∈ e.res.possible.head?, tr.new ≠ .m .setup)
+    (h : envStep orc inst ec st e a = .ok out) :
+    NoStartSince e.res.state out.env.res.state ∧ (∀ σ ∈ out.micro, NoStartSince e.res.state σ) := by
+  rcases hk with rfl | hk
+  · exact envStep_decline_starts_nothing hst hflex hr h
+  · exact envStep_dispatch_starts_nothing hst hflex hr hk h
+
+/-- T3 read forwards: under the same hypotheses every record that is idle before the step is still
+idle after it -/
+theorem c06_idle_records_stay_idle {ec : EnvCfg} {st : RewardStatic} {s0 : State} (hst : Start orc inst s0)
+    (hflex : PreFlex inst) {e : EnvState} (hr : EnvReach orc inst ec st s0 e) {a : AgentAct} {out : StepOut}
+    (hk : a = .decline ∨ ∀ tr ∈ e.res.possible.head?, tr.new ≠ .m .setup)
+    (h : envStep orc inst ec st e a = .ok out) :
+    ∀ j ∈ e.res.state.jobs, ∀ o ∈ j.ops, o.st = .idle →
+      ∃ j' ∈ out.env.res.state.jobs, j'.id = j.id ∧ ∃ o' ∈ j'.ops, o'.job = o.job ∧ o'.idx = o.idx ∧ o'.st = .idle :=
+  (c06_only_an_accepted_start_starts hst hflex hr hk h).1.idle_stays (initOKB_sound hst.init).1
+    (envReach_inv hst hr).struct.shape (envReach_inv hst (EnvReach.step hr h)).struct.shape
+
+/-- the hypothesis of T3 cannot be dropped -/
+theorem c06_ordered_prebuffers_start_by_themselves : Start ExT.orc0 ExFifo.inst Ex.s0 ∧
+    ∃ e out, EnvReach ExT.orc0 ExFifo.inst ExT.ec ExT.st Ex.s0 e ∧
+      envStep ExT.orc0 ExFifo.inst ExT.ec ExT.st e .decline = .ok out ∧
+      e.res.possible.length = 1 ∧ (∀ tr ∈ e.res.possible, tr.new ≠ .m .setup) ∧
+      ¬ NoStartSince e.res.state out.env.res.state :=
+  fifo_decline_starts
+
+/-- **T4.**  An accepted machine start is applied first and the operation begins at the decision
+instant. -/
+theorem c06_accepted_start_starts_now {ec : EnvCfg} {st : RewardStatic} {s0 : State} (hst : Start orc inst s0)
+    {e : EnvState} (hr : EnvReach orc inst ec st s0 e) {mid jid : Nat} {rest : List Transition}
+    (hp : e.res.possible = { comp := .m mid, new := .m .setup, job := some jid } :: rest)
+    {out : StepOut} (h : envStep orc inst ec st e .accept = .ok out) :
+    ∃ s1 r1 mic', applyTransition orc inst e.res.state e.rng { comp := .m mid, new := .m .setup, job := some jid } = .ok (s1, r1) ∧
+      out.micro = s1 :: mic' ∧
+      ∃ j ∈ e.res.state.jobs, j.id = jid ∧ ∃ o mm, StartableOp e.res.state j o mm ∧ o.machine = mid ∧
+      ∃ sd : Int, ∃ j1 ∈ s1.jobs, j1.id = jid ∧
+        (∃ o1 ∈ j1.ops, o1.job = o.job ∧ o1.idx = o.idx ∧ o1.st = .processing ∧ o1.machine = mid ∧
+          o1.start = some e.res.state.time ∧ o1.stop = some (e.res.state.time + sd)) ∧
+        ∃ m1 ∈ s1.machines, m1.id = mid ∧ m1.st = .setup ∧ m1.occ = some (e.res.state.time + sd) :=
+  envStep_accept_starts_now hst hr hp h
+
+/-- **Composition.**  At a fresh decision point of an episode that is not over, for every startable
+operation `o` of a job `j`: some number `k` of declines – applying nothing, changing neither the
+shop state nor the counters nor the allowance – leads to an environment state of the same episode
+whose head offer is the start of `o`; and if the `accept` there returns, its first applied
+transition starts `o` at the current instant `e.res.state.time`. -/
+theorem c06_startable_can_be_started_now {ec : EnvCfg} {st : RewardStatic} {s0 : State} (hst : Start orc inst s0)
+    (hj : 0 ≤ ec.mw.jokerInit) (hn : st.numOps ≠ 0) {e : EnvState} (hr : EnvReach orc inst ec st s0 e)
+    (hd : e.done = false) (hne : e.res.possible ≠ []) (hf : FreshOffers inst ec e)
+    {j : JobState} (hjm : j ∈ e.res.state.jobs) {o : OpState} {m : MachineState} (hso : StartableOp e.res.state j o m) :
+    ∃ k e' post, envDeclineN orc inst ec st k e = .ok (e', []) ∧ EnvReach orc inst ec st s0 e' ∧ e'.done = false ∧
+      e'.res.state = e.res.state ∧ e'.rng = e.rng ∧ e'.mw.joker = e.mw.joker ∧
+      e'.res.possible = { comp := .m o.machine, new := .m .setup, job := some j.id } :: post ∧
+      ∀ out, envStep orc inst ec st e' .accept = .ok out →
+        ∃ s1 r1 mic', applyTransition orc inst e.res.state e.rng
+            { comp := .m o.machine, new := .m .setup, job := some j.id } = .ok (s1, r1) ∧
+          out.micro = s1 :: mic' ∧
+          ∃ j1 ∈ s1.jobs, j1.id = j.id ∧ ∃ o1 ∈ j1.ops, o1.job = o.job ∧ o1.idx = o.idx ∧
+            o1.st = .processing ∧ o1.machine = o.machine ∧ o1.start = some e.res.state.time := by
+  obtain ⟨w, hI, hS⟩ := occursA_inv hst ((envReach_inv hst hr).live hne).1
+  have hmem := offers_complete_op hS hf hjm hso
+  obtain ⟨k, e', post, _, h1, h2, h3, h4, h5, h6, h7, _⟩ := c06_any_offer_can_be_chosen hst hj hn hr hd hmem
+  refine ⟨k, e', post, h1, h2, h3, h4, h6, h7, h5, ?_⟩
+  intro out hout
+  obtain ⟨s1, r1, mic', ha, hmic, j2, hj2, hid, o2, m2, hso2, _, sd, j1, hj1, e1, ⟨o1, ho1, k1, k2, k3, k4, k5, _⟩, _⟩ :=
+    envStep_accept_starts_now hst h2 h5 hout
+  rw [h4] at hj2 hso2 ha k5
+  rw [h6] at ha
+  have : j2 = j := eq_of_mem_of_key_eq (key := fun (y : JobState) => y.id) (hI.shape.jobsNodup w) hj2 hjm hid
+  subst this
+  have : o2 = o := by
+    have := hso2.nextIdle; rw [hso.nextIdle] at this; simpa using this.symm
+  subst this
+  exact ⟨s1, r1, mic', ha, hmic, j1, hj1, e1, o1, ho1, k1, k2, k3, k4, k5⟩
+
+/-- the FLEX hypothesis of T3 follows from the decidable guard `flexInstB` (every buffer unordered),
+which the correspondence check evaluates on both sides for every scenario -/
+theorem c06_flex_guard_suffices (h : flexInstB inst = true) : PreFlex inst := by
+  intro mc hmc
+  apply flexInstB_sound h
+  simp only [allBufCfgs, List.mem_append, List.mem_flatMap, List.mem_map]
+  exact Or.inl (Or.inr ⟨mc, hmc, by simp⟩)
+
+/-- non-vacuity: the example instance is in that class -/
+example : PreFlex Ex.inst := c06_flex_guard_suffices (by decide)
 
 end JSL
